@@ -15,6 +15,7 @@ import RigModel.Lemmas.C03Tree
 import RigModel.Lemmas.C03AStar
 import RigModel.Lemmas.C03Copy
 import RigModel.Lemmas.C03Ner
+import RigModel.Lemmas.C03Repair
 set_option linter.unusedSimpArgs false
 set_option linter.unusedVariables false
 
@@ -96,5 +97,51 @@ satisfies `l < 6` and `child = parent + vec l (mod w, h)`. -/
 theorem nerNet_edges_partial (m : Machine) (src : Chip) (dests : List Chip) (wrap : Bool) (radius : Nat)
     (t t' : Tape) (f : Forest) (h : nerNet src dests m.w m.h wrap radius t = .ok (f, t')) : ForestHops m f :=
   L.nerNet_hops m src dests wrap radius t t' f h
+
+/-- **Repair uses only live hardware.**  Whenever the dead-link repair ran (copy + A* reconnection of every
+broken link, in ANY processing order, with or without fixes/c03-avoid-dead-links-parent.diff), every node of
+the resulting forest is a working chip and every edge a working link to the adjacent working chip. -/
+theorem routeNet_repaired_live (m : Machine) (src : Chip) (dests : List Chip) (radius : Nat) (t : Tape)
+    (order : List (Chip × Chip)) (sinks : List Sink) (legacy : Bool) (r : Result)
+    (h : routeNet m src dests radius t order sinks legacy = .ok r) (hr : r.repaired = true) :
+    ForestLive m r.forest :=
+  L.routeNet_repaired_live m src dests radius t order sinks legacy r h hr
+
+/- Full statement aimed at (DESIGN 3/C03), NOT proved (and false for `legacy = true`, defect F3):
+   theorem routeNet_valid : routeNet m src dests radius t order sinks false = .ok r →
+     (placements on working chips, dests = chips of the sinks) →
+     toTree r.forest r.leaves n r.root = some t → ValidTree m src sinks t
+   Proved part below: the clauses `hops` (the target chip being a working chip only when the repair ran) and
+   `leaves_sound` of `ValidTree`, for every machine, net, radius, tape and order.
+   Missing: `distinct` (the forest invariant of the repair loop, one parent per node / no cycle), `rooted`
+   and `leaves_complete` (every sink chip is reachable from the root in the forest). -/
+/-- **Every hop of every tree the model of `route()` returns follows a working link of a working chip to the
+adjacent chip, and every leaf is an expected leaf.** -/
+theorem routeNet_tree_partial (m : Machine) (src : Chip) (dests : List Chip) (radius : Nat) (t : Tape)
+    (order : List (Chip × Chip)) (sinks : List Sink) (legacy : Bool) (r : Result)
+    (h : routeNet m src dests radius t order sinks legacy = .ok r)
+    (fuel : Nat) (tr : Tree) (ht : toTree r.forest r.leaves fuel r.root = some tr) :
+    (∀ c l c', (c, l, c') ∈ tr.edges →
+        l < 6 ∧ linkOk m c l = true ∧ c' = step m c l ∧ (r.repaired = true → chipOk m c' = true)) ∧
+    (∀ lf, lf ∈ tr.leafList → lf ∈ expectedLeaves sinks) := by
+  constructor
+  · intro c l c' he
+    obtain ⟨n, hn, hn1, hn2⟩ := L.toTree_edges fuel r.root tr ht _ he
+    simp only at hn1 hn2
+    have h1 := L.routeNet_links m src dests radius t order sinks legacy r h n hn _ hn2
+    rw [hn1] at h1
+    refine ⟨h1.1, h1.2.1, h1.2.2, ?_⟩
+    intro hr
+    have h2 := ((L.routeNet_repaired_live m src dests radius t order sinks legacy r h hr) n hn).2 _ hn2
+    exact h2.2.2.1
+  · intro lf hlf
+    rw [← L.routeNet_leaves m src dests radius t order sinks legacy r h]
+    exact L.toTree_leaves fuel r.root tr ht lf hlf
+
+/-- non-vacuity: a repaired net on a 3x3 machine with a dead link on the direct route -/
+example : (match routeNet ⟨3, 3, [], [((0, 0), 0)]⟩ (0, 0) [(1, 0)] 1 [0, 0, 0, 0, 0, 0, 0] [((0, 0), (1, 0))]
+      [⟨1, (1, 0), 1, 2, 4⟩] false with
+    | .ok r => r.repaired && (toTree r.forest r.leaves 10 r.root).isSome
+    | .error _ => false) = true := by decide +kernel
 
 end Rig.C03
